@@ -148,26 +148,6 @@ Definition make_cfg_full (tslo tshi ppqn ntracks plo phi : Z) (steps values : op
   mkcfg (c_ppqn c) (c_ntracks c) (c_plo c) (c_phi c) (c_steps c) (c_values c) (c_vbins c) tslo tshi
         (c_running c) (c_ftrk c) (c_fval c) (c_fvel c) (c_simplify c).
 
-(* ---- harness-level compound operations: one public call that is a fixed sequence of modelled operations
-   (e.g. Sequence.scale(k) with its default quantise_afterwards=True); stops at the first error like Python *)
-Inductive hop : Set := HOp (o : op) | HSeq (os : list op)
-| HScaleDown (i : nat) (k : Z) (meta : option nat) (then_ : list op)    (* scale(1/k, meta) and, if it succeeds, then_ *)
-| HFail (o : op) (e : err).        (* a call that has the state effect of o and then raises e (argument validation) *)
-Fixpoint hseq (st : store) (os : list op) (last : out) : store * out :=
-  match os with
-  | [] => (st, last)
-  | o :: os' => let '(st1, x) := step st o in
-                match x with OErr _ => (st1, x) | _ => hseq st1 os' x end
-  end.
-Definition hstep (st : store) (h : hop) : store * out :=
-  match h with
-  | HOp o => step st o
-  | HSeq os => hseq st os ONone
-  | HScaleDown i k meta then_ =>
-      let '(st1, x) := store_scale_down st i k meta in
-      match x with OErr _ => (st1, x) | _ => hseq st1 then_ x end
-  | HFail o e => let '(st1, x) := step st o in (st1, match x with OErr _ => x | _ => OErr e end)
-  end.
 Fixpoint run_trace_h (st : store) (hs : list hop) : list string :=
   match hs with
   | [] => []
